@@ -10,6 +10,7 @@
 #include "ccl/oss/OSSchema.h"
 #include "ccl/ops/RSOperations.h"
 #include "ccl/tools/EntityGenerator.h"
+#include "ccl/tools/JSON.h"
 
 #include <deque>
 
@@ -153,6 +154,21 @@ static void Apply(World& w, const json& c, const json& wit, size_t step, vh::Rep
     else if (k == "text") (void)s->schema.SetTermFor(bases.front(), "t" + std::to_string(step) + s->schema.GetText(bases.front()).term.Text().Raw());
     else if (k == "userTerm") s->schema.Emplace(CstType::term, UserTermFor(p));
   }
+  else if (o == "Reload") {
+    // save the document, destroy the schema object (which closes its sources), load the document with the items rotated,
+    // re-open every source through the new object
+    nlohmann::ordered_json doc = ossRef;
+    auto& items = doc["items"]; const size_t n = items.size(); const size_t rot = n == 0 ? 0 : c["n"].get<size_t>() % n;
+    nlohmann::ordered_json rotated = nlohmann::ordered_json::array(); for (size_t i = 0; i < n; ++i) rotated.push_back(items[(i + rot) % n]);
+    doc["items"] = rotated;
+    std::map<PictID, bool> locked; for (const auto& pict : ossRef) if (auto* s = w.Src(pict.uid); s != nullptr) locked[pict.uid] = s->unwritable;
+    w.oss.reset();
+    w.oss = std::make_unique<OSSchema>();
+    try { doc.get_to(*w.oss); } catch (const std::exception& ex) { r.Violation("C19", "saved document does not load", wit, { {"step", step}, {"what", ex.what()} }); return; }
+    std::set<PictID> all; for (const auto& pict : *w.oss) all.insert(pict.uid);
+    for (const auto p2 : all) (void)w.oss->Src().OpenSrc(p2);
+    (void)locked;
+  }
   else if (o == "Lock") { if (auto* s = w.Src(p); s != nullptr) s->unwritable = true; }
   else if (o == "Save") { if (auto* s = w.Src(p); s != nullptr) s->TriggerSave(); }
   else if (o == "InitFor") {
@@ -221,8 +237,75 @@ static void Handle(const json& c, vh::Report& r) {
   if ((r.cases % 4973) == 3) r.Sample(c);
 }
 
+// ------------------------------------------------------------------ recording (direction B): long random histories
+#include <random>
+static int Record(const vh::Args& args) {
+  const long traces = args.num("record", 5), steps = args.num("steps", 40);
+  std::mt19937 g(static_cast<unsigned>(args.num("seed", 1)));
+  std::ofstream out(args.get("trace")); vh::Report rep; long events = 0;
+  for (long t = 0; t < traces; ++t) {
+    out << json{ {"op", "Reset"} }.dump() << std::endl; ++events;
+    g_counter = 1000;
+    World w; int nextPict = 1, nextSrc = 101;
+    auto ev0 = [](const char* op) { return json{ {"op", op}, {"p", 0}, {"a", 0}, {"b", 0}, {"new", 0}, {"s", 0}, {"n", 0}, {"kind", ""}, {"type", ""}, {"table", 0} }; };
+    for (long st = 0; st < steps; ++st) {
+      std::vector<PictID> all, opsL, bases; for (const auto& pict : *w.oss) all.push_back(pict.uid); std::sort(all.begin(), all.end());
+      for (const auto p : all) (w.oss->Ops()(p) != nullptr ? opsL : bases).push_back(p);
+      auto pick = [&](const std::vector<PictID>& v) { return v[g() % v.size()]; };
+      json ev; const int wgt = static_cast<int>(g() % 100);
+      if (all.size() < 3 || (wgt < 8 && all.size() < 7)) {
+        if (bases.size() < 2 || g() % 2) { ev = ev0("InsertBase"); ev["new"] = nextPict++; }
+        else { ev = ev0("InsertOperation"); ev["new"] = nextPict++; ev["a"] = pick(all); ev["b"] = pick(all); }
+      }
+      else if (wgt < 14 && all.size() < 7) { ev = ev0("InsertOperation"); ev["new"] = nextPict++; ev["a"] = pick(all); ev["b"] = pick(all); }
+      else if (wgt < 18) { ev = ev0("Erase"); ev["p"] = pick(all); }
+      else if (wgt < 34) {   // connect a base pictogram that has no source yet (a re-connection replaces every constituent: outside the model's content abstraction)
+        std::vector<PictID> fresh; for (const auto p : bases) if (w.oss->Src()(p)->empty()) fresh.push_back(p);
+        if (fresh.empty()) { --st; continue; }
+        ev = ev0("ConnectNew"); ev["p"] = pick(fresh); ev["s"] = nextSrc++; ev["n"] = 1 + static_cast<int>(g() % 2);
+      }
+      else if (wgt < 52) {   // edit
+        std::vector<std::pair<PictID, std::string>> can;
+        for (const auto p : all) if (auto* s = w.Src(p); s != nullptr) {
+          const auto nb = BasesOf(s->schema).size(); const bool isOp = w.oss->Ops()(p) != nullptr;
+          if (!isOp && nb < 3) can.push_back({ p, "addBase" });
+          if (!isOp && nb >= 2) can.push_back({ p, "removeBase" });
+          bool hasOwn = false; for (const auto u : s->schema.List()) if (!s->schema.Mods().IsTracking(u) && isOp) hasOwn = true;
+          if (isOp && nb >= 1 && !hasOwn) can.push_back({ p, "userTerm" });
+        }
+        if (can.empty()) { --st; continue; }
+        const auto c = can[g() % can.size()]; ev = ev0("Edit"); ev["p"] = c.first; ev["kind"] = c.second;
+      }
+      else if (wgt < 64) { std::vector<PictID> linked; for (const auto p : all) if (w.Src(p) != nullptr) linked.push_back(p); if (linked.empty()) { --st; continue; } ev = ev0("Save"); ev["p"] = pick(linked); }
+      else if (wgt < 76) {
+        if (opsL.empty()) { --st; continue; }
+        const auto p = pick(opsL); const auto parents = w.oss->Graph().ParentsOf(p);
+        const bool bothBases = w.oss->Ops()(parents[0]) == nullptr && w.oss->Ops()(parents[1]) == nullptr;
+        const int k = static_cast<int>(g() % (bothBases ? 3 : 2));
+        ev = ev0("InitFor"); ev["p"] = p; ev["type"] = k == 0 ? "merge" : "synt"; ev["table"] = k == 0 ? -1 : k == 1 ? 0 : 1;
+      }
+      else if (wgt < 90) { if (opsL.empty()) { --st; continue; } ev = ev0("Execute"); ev["p"] = pick(opsL); }
+      else if (wgt < 94) { if (opsL.empty()) { --st; continue; } ev = ev0("ExecuteAll"); }
+      else if (wgt < 96) { std::vector<PictID> res; for (const auto p : opsL) if (auto* s = w.Src(p); s != nullptr && !s->unwritable) res.push_back(p); if (res.empty()) { --st; continue; } ev = ev0("Lock"); ev["p"] = pick(res); }
+      else {   // reload only when nothing is pending: announce everything first (as separate events)
+        bool pending = false;
+        for (const auto p : all) if (auto* s = w.Src(p); s != nullptr) { json sv = ev0("Save"); sv["p"] = p; Apply(w, sv, json(), 0, rep, false); sv["view"] = ViewOf(w); out << sv.dump() << std::endl; ++events; (void)pending; }
+        ev = ev0("Reload"); ev["n"] = static_cast<int>(g() % 3);
+      }
+      Apply(w, ev, json(), static_cast<size_t>(st), rep, false);
+      ev["view"] = ViewOf(w);
+      out << ev.dump() << std::endl; ++events;
+    }
+    ++rep.cases;
+  }
+  rep.counters["events"] = events; rep.counters["traces"] = traces;
+  rep.Write(args.get("out"));
+  return 0;
+}
+
 int main(int argc, char** argv) {
   InstallHook();
+  { vh::Args args(argc, argv); if (args.has("record")) return vh::RunRecorder(args.get("trace"), args.get("out"), [&]() { return Record(args); }, 240); }
   vh::IsoOptions iso; iso.faultProperty = "C19"; iso.batch = 300; iso.watchdogSeconds = 20;
   return vh::Main(argc, argv, Handle, true, iso);
 }
